@@ -408,7 +408,8 @@ def gen_layered(rng: random.Random, tier: str) -> dict:
     for step in range(rng.randint(1, 20)):
         op = rng.choice(["set", "set", "del", "get", "len", "iter", "contains", "layer_name", "with_layers", "with_layers_append", "with_layers_inplace"])
         ops.append([op, rng.choice(LKEYS), step])
-    return {"layers": layers, "names": names, "ops": ops}
+    # some supplied layers are mappings with a default for missing keys (defaultdict / Counter): a read must not trigger it
+    return {"layers": layers, "names": names, "ops": ops, "defaulting": [rng.random() < 0.25 for _ in range(nl)]}
 
 
 def judge_layered(case) -> Outcome:
@@ -416,8 +417,11 @@ def judge_layered(case) -> Outcome:
 
     out = Outcome()
     out.sig = (tuple(tuple(sorted(layer)) for layer in case["layers"]), tuple((o[0], o[1]) for o in case["ops"]))
-    layers = [dict(layer) for layer in case["layers"]]
-    snap = copy.deepcopy(layers)
+    import collections
+
+    layers = [(collections.defaultdict(lambda: ["made-up"], layer) if dflt else dict(layer))
+              for layer, dflt in zip(case["layers"], case.get("defaulting") or [False] * len(case["layers"]))]
+    snap = [dict(layer) for layer in copy.deepcopy([dict(x) for x in layers])]
     named = [layer if n is None else (layer, n) for layer, n in zip(layers, case["names"])]
     try:
         lm = LayeredMapping(*[x if not isinstance(x, tuple) else x for x in layers])
@@ -527,8 +531,8 @@ def judge_layered(case) -> Outcome:
                 out.fail("c19.layered_child_stale", f"after {op} {k!r} on the parent, a mapping derived earlier by with_layers(prepend={pre}) shows {dict(child)} but the merge of its layers is {exp_c}")
                 children.clear()
                 break
-        if layers != snap:
-            out.fail("c19.layered_supplied_layer_mutated", f"supplied layers changed: {layers} != {snap} after {op} {k}")
+        if [dict(x) for x in layers] != snap:
+            out.fail("c19.layered_supplied_layer_mutated", f"supplied layers changed: {[dict(x) for x in layers]} != {snap} after {op} {k}")
             break
     for k in LKEYS:
         holders = [i for i, layer in enumerate(layers) if k in layer]
@@ -552,7 +556,7 @@ def judge_layered(case) -> Outcome:
         out.see("named_layer_checks")
     if set(lmn.named_layers) != {n for n in case["names"] if n is not None}:
         out.fail("c19.layered_named_layers", f"named_layers {set(lmn.named_layers)} vs {case['names']}")
-    if layers != snap:
+    if [dict(x) for x in layers] != snap:
         out.fail("c19.layered_supplied_layer_mutated", "supplied layers changed by named lookups")
     return out
 
